@@ -1,4 +1,5 @@
 import NA.Proofs.C19Calm3
+import NA.Proofs.C19Race
 import NA.Gen.NewPolicy
 /-!
 # C19 — the policy database always points to a complete, compiled policy
@@ -20,8 +21,18 @@ open NA.Gen.NewPolicy
 
 /-! ### The regenerated script passes the static checks -/
 
+/-- shgen understood every command, variable and construct of the script: `prog` IS its translation
+(otherwise `prog` is the last program shgen understood, kept only so that the harness can still
+search the real tree for a failing schedule). -/
+theorem script_understood : understood = true := by decide
+
+/-- Every command of the script that runs as a child process hands fd 9 (and with it the flock)
+down to that child — no `9>&-`.  So a child that outlives a killed shell still holds the lock. -/
+theorem fd9_inherited_checked : inhOK prog = true := by decide +kernel
 theorem safety_checked : check safety prog (infer safety prog) = true := by decide +kernel
 theorem numbering_checked : check numbering prog (infer numbering prog) = true := by decide +kernel
+theorem code_checked : check code prog (infer code prog) = true := by decide +kernel
+theorem git_checked : check gitd prog (infer gitd prog) = true := by decide +kernel
 theorem calm_checked : check calm prog (infer calm prog) = true := by decide +kernel
 theorem calm_forward : forward calm prog (infer calm prog) = true := by decide +kernel
 
@@ -39,7 +50,7 @@ theorem wrappers_only_delegate :
 /-- `current` is absent or names an existing directory that holds a successful compile. -/
 theorem current_absent_or_compiled (sysEmail : Bool) (es : List Event) :
     (run prog sysEmail es).g.currentOK = true := by
-  have h := (inv1_run safety_checked sysEmail es).gi
+  have h := (inv1_run fd9_inherited_checked safety_checked sysEmail es).gi
   unfold G.currentOK
   cases hc : (run prog sysEmail es).g.current with
   | none => rfl
@@ -59,6 +70,24 @@ theorem compile_ok_iff_good (g : G) (p : Proc) :
     | none => simp [hh]
     | some c => by_cases hg : (commitAt g.store c).good = true <;> simp [hh, hg]
 
+/-- The compiled code belongs to the tree of HEAD: in every reachable state every compiled policy
+directory (so in particular the one `current` names) carries the code of exactly the tree that
+is checked out in its `src` (content id of the tree without the POLICY file), produced by ONE
+compile into a fresh `code` directory (`mixed = false`: `rm -rf $NEXT; mkdir $NEXT` under the lock
+before every compile — no leftover files of a killed earlier run).  This is what
+`git reset --hard $HASH` after `git pull --no-rebase` is for: without it, HEAD of the promoted
+directory would be the merge commit while the code was compiled before the merge. -/
+theorem compiled_code_belongs_to_head (sysEmail : Bool) (es : List Event) (n : Nat) (d : Dir)
+    (hd : lookupDir (run prog sysEmail es).g.dirs n = some d) :
+    dirCodeOK (run prog sysEmail es).g.store d = true := by
+  have h := (inv124_run fd9_inherited_checked safety_checked numbering_checked code_checked sysEmail es).2.2.gi
+  unfold dirCodeOK
+  cases hb : d.built with
+  | false => rfl
+  | true =>
+    obtain ⟨x, hx, _, hc, hm⟩ := h.dirs n d hd hb
+    simp [hx, hc, hm, treeOf]
+
 /-- Whoever changes `current` (removes or re-points the link) is a live invocation that holds the
 lock and whose directory `p$POLICY` exists and holds a successful compile — so a commit that does
 not compile never changes `current`: neither the commit itself, nor a run that fails to compile
@@ -68,7 +97,7 @@ theorem bad_commit_never_changes_current (sysEmail : Bool) (es : List Event) (e 
     ∃ pid p d, e = .step pid ∧ findProc (run prog sysEmail es).procs pid = some p ∧ p.alive = true ∧
       (run prog sysEmail es).g.lock = some p.pid ∧
       lookupDir (run prog sysEmail es).g.dirs p.policy = some d ∧ d.built = true :=
-  current_change safety_checked (inv1_run safety_checked sysEmail es) e hch
+  current_change safety_checked (inv1_run fd9_inherited_checked safety_checked sysEmail es) e hch
 
 /-- At most one invocation works on the database: two live invocations that have written or are
 about to write (anything below policies/ or to the repository) are the same invocation, and it
@@ -77,7 +106,7 @@ theorem at_most_one_worker (sysEmail : Bool) (es : List Event) (p q : Proc)
     (hp : p ∈ (run prog sysEmail es).procs) (hq : q ∈ (run prog sysEmail es).procs)
     (wp : works prog p = true) (wq : works prog q = true) :
     p = q ∧ (run prog sysEmail es).g.lock = some p.pid := by
-  have hinv := inv1_run safety_checked sysEmail es
+  have hinv := inv1_run fd9_inherited_checked safety_checked sysEmail es
   have h1 := works_holds safety_checked hinv hp wp
   have h2 := works_holds safety_checked hinv hq wq
   rw [h1] at h2
@@ -92,16 +121,32 @@ theorem strictlyDecreasing_of_pairwise : ∀ l : List Nat, l.Pairwise (· > ·) 
     simp only [strictlyDecreasing, Bool.and_eq_true, decide_eq_true_eq]
     exact ⟨h1.1 b (by simp), strictlyDecreasing_of_pairwise (b :: rest) h1.2⟩
 
+/-- No git command of the script fails unless a user commit races with it: in every history in
+which no user commit lands while a live invocation stands between its `git pull --no-rebase` and
+the following `git push` (`raced`, a ghost set by the commit event) and nobody rewrites the POLICY
+file by hand (`edited`: a commit that rewrites POLICY, or the script's revert of such a commit),
+`git clone`, `git commit`, `git pull --no-rebase` of the script never fail and no `git push` that
+would publish a new POLICY number is rejected — for any number of concurrent invocations, kills
+and orphans: the other sources of failure (a leftover `next`, a second writer) are excluded by the
+lock invariant and by `rm -rf $NEXT; mkdir $NEXT` under the lock. -/
+theorem no_git_trouble_if_race_free (sysEmail : Bool) (es : List Event)
+    (hr : (run prog sysEmail es).g.raced = false) (he : (run prog sysEmail es).g.edited = false) :
+    (run prog sysEmail es).g.trouble = false :=
+  no_trouble_of_race_free fd9_inherited_checked safety_checked numbering_checked code_checked git_checked
+    sysEmail es hr he
+
 /-- Policy numbers strictly increase: the numbers N of all `mv next pN` ever executed (ghost list
 `hist`, newest first) are strictly decreasing, i.e. every new policy directory gets a number larger
-than every number used before — for every history in which no `git clone/commit/pull --no-rebase/push` of
-the script has failed and nobody rewrote the POLICY file by hand.  (The full statement is false:
-`policy_numbers_strictly_increase_counterexample`.) -/
+than every number used before — for every history in which no user commit raced with pull…push of
+a live invocation and nobody rewrote the POLICY file by hand (hypotheses on the schedule only; that
+no git command fails then is `no_git_trouble_if_race_free`).  The full statement is false:
+`policy_numbers_strictly_increase_counterexample`. -/
 theorem policy_numbers_strictly_increase_partial (sysEmail : Bool) (es : List Event)
-    (h1 : (run prog sysEmail es).g.trouble = false) (h2 : (run prog sysEmail es).g.edited = false) :
+    (h1 : (run prog sysEmail es).g.raced = false) (h2 : (run prog sysEmail es).g.edited = false) :
     strictlyDecreasing (run prog sysEmail es).g.hist = true :=
   strictlyDecreasing_of_pairwise _
-    ((inv2_run safety_checked numbering_checked sysEmail es).2.n ⟨h1, h2⟩).incr
+    ((inv2_run fd9_inherited_checked safety_checked numbering_checked sysEmail es).2.n
+      ⟨no_git_trouble_if_race_free sysEmail es h1 h2, h2⟩).incr
 
 def stepsN (pid n : Nat) : List Event := List.replicate n (Event.step pid)
 
@@ -134,7 +179,7 @@ computes the number 2 again, its `mv next p2` lands inside the existing p2 and i
 directory p2 current. -/
 theorem policy_numbers_strictly_increase_counterexample :
     ∃ es : List Event, strictlyDecreasing (run prog false es).g.hist = false ∧
-      (run prog false es).g.edited = false :=
+      (run prog false es).g.edited = false ∧ (run prog false es).g.raced = true :=
   ⟨racedAndLostLink, by decide +kernel⟩
 
 /-- "The next undisturbed run makes the newest compiling revision current" is false (F-C19):
@@ -162,36 +207,72 @@ theorem next_run_promotes_newest_counterexample_compile :
       (runNew prog 200 (run prog false es)).g.newest = false :=
   ⟨killedBefore (· == .compile), by decide +kernel⟩
 
-/-- The next undisturbed run makes the newest compiling revision current — for every history after
-which the database is quiescent, the newest revision compiles, no git command of the script has
-failed, nobody rewrote POLICY by hand, and there is no leftover `next` whose HEAD equals the remote
-head (`staleNext`, the state both F-C19 windows leave behind: the exact complement of the
-counterexamples above).  The run terminates within `prog.length + 1` commands with exit status 0. -/
+/-- The next undisturbed run makes the newest compiling revision current — from EVERY reachable
+state (any history of commits, invocations, interleavings, kills between commands and kills during
+a child process) in which no invocation is left, the newest revision compiles, and which is outside
+the two classes of the known findings, both decidable on the state:
+`staleNext` (a leftover `next` whose HEAD equals the remote head — what F-C19 / F-C19b leave) and
+`¬ numbersCovered` (a policy directory numbered above max(POLICY file, link) — what F-C19n leaves).
+No hypothesis on git failures or POLICY edits in the past.  The new invocation terminates within
+`prog.length + 1` commands with exit status 0; afterwards `current` names a compiled directory
+whose HEAD is the remote head and whose code was compiled from that revision's tree. -/
 theorem next_run_promotes_newest_partial (sysEmail : Bool) (es : List Event)
     (hq : quiescent (run prog sysEmail es) = true)
     (hgood : (commitAt (run prog sysEmail es).g.store (run prog sysEmail es).g.remote).good = true)
     (hstale : (run prog sysEmail es).g.staleNext = false)
-    (ht : (run prog sysEmail es).g.trouble = false) (he : (run prog sysEmail es).g.edited = false) :
+    (hcov : (run prog sysEmail es).g.numbersCovered = true) :
     quiescent (runNew prog (prog.length + 1) (run prog sysEmail es)) = true ∧
     exitOf (runNew prog (prog.length + 1) (run prog sysEmail es)) (run prog sysEmail es).npid = some 0 ∧
     (runNew prog (prog.length + 1) (run prog sysEmail es)).g.newest = true :=
-  promotes_of_checks safety_checked numbering_checked calm_checked calm_forward sysEmail es hq hgood hstale ht he
+  promotes_of_checks fd9_inherited_checked safety_checked numbering_checked code_checked calm_checked calm_forward sysEmail es
+    hq hgood hstale hcov
 
 /-! Non-vacuity: histories with bad commits, reverts, kills and a second invocation meet the
-hypotheses of the `_partial` theorems. -/
+hypotheses of the `_partial` theorems; so does a history WITH git trouble in the past (the racing
+commit and the lost link of F-C19n, after the two runs that repair it). -/
 example :
     let es : List Event := [.spawn] ++ stepsN 1 200 ++ [.commit false none true, .spawn] ++ stepsN 2 30 ++ [.spawn] ++
       stepsN 3 12 ++ stepsN 2 300 ++ [.commit true none true, .spawn] ++ stepsN 4 20 ++ [.kill 4, .commit true none false]
     quiescent (run prog false es) = true ∧
     (commitAt (run prog false es).g.store (run prog false es).g.remote).good = true ∧
-    (run prog false es).g.staleNext = false ∧ (run prog false es).g.trouble = false ∧
+    (run prog false es).g.staleNext = false ∧ (run prog false es).g.numbersCovered = true ∧
+    (run prog false es).g.trouble = false ∧ (run prog false es).g.raced = false ∧
     (run prog false es).g.edited = false ∧ (run prog false es).g.hist = [2, 1] := by decide +kernel
 
+example :
+    let es : List Event := racedAndLostLink ++ [.spawn] ++ stepsN 4 200
+    quiescent (run prog false es) = true ∧
+    (commitAt (run prog false es).g.store (run prog false es).g.remote).good = true ∧
+    (run prog false es).g.staleNext = false ∧ (run prog false es).g.numbersCovered = true ∧
+    (run prog false es).g.trouble = true := by decide +kernel
+
+/-- A user commit that lands while the second invocation compiles is merged by its `git pull
+--no-rebase`; that is not a race in the sense of `raced`, and no git command fails. -/
+example :
+    let a : List Event := history1 ++ stepsN 2 (countUntil (· == .compile) 2 200 (run prog false history1))
+    let es : List Event := a ++ [.commit true none true] ++ stepsN 2 200
+    (run prog false es).g.raced = false ∧ (run prog false es).g.edited = false ∧
+    (run prog false es).g.trouble = false ∧ (run prog false es).g.hist = [2, 1] ∧
+    (commitAt (run prog false es).g.store (run prog false es).g.remote).kind = .merge := by decide +kernel
+
+/-- An orphan keeps the lock (non-vacuity of `at_most_one_worker` for `killDuring`): the shell of
+the first invocation is killed while its `git push` runs; a second invocation started before that
+child has finished finds the lock held and exits 1; when the child is done the push has happened
+and the lock is free. -/
+example :
+    let a : List Event := [.spawn] ++ stepsN 1 (countUntil (· == .gitPush) 1 200 (run prog false [.spawn]))
+    let es : List Event := a ++ [.killDuring 1, .spawn] ++ stepsN 2 30
+    (run prog false es).g.lock = some 1 ∧ exitOf (run prog false es) 2 = some 1 ∧
+    (run prog false es).dying = [1] ∧ (run prog false es).g.remote = 1 ∧
+    (run prog false (es ++ [.step 1])).g.lock = none ∧ (run prog false (es ++ [.step 1])).g.remote = 2 ∧
+    quiescent (run prog false (es ++ [.step 1])) = true := by decide +kernel
+
 def obligations : List Lean.Name := [
-  ``safety_checked, ``numbering_checked, ``calm_checked, ``calm_forward, ``wrappers_only_delegate,
+  ``script_understood, ``fd9_inherited_checked, ``safety_checked, ``numbering_checked, ``code_checked, ``calm_checked, ``calm_forward,
+  ``compiled_code_belongs_to_head, ``wrappers_only_delegate,
   ``next_run_promotes_newest_partial,
   ``current_absent_or_compiled, ``compile_ok_iff_good, ``bad_commit_never_changes_current, ``at_most_one_worker,
-  ``policy_numbers_strictly_increase_partial, ``policy_numbers_strictly_increase_counterexample,
+  ``git_checked, ``no_git_trouble_if_race_free, ``policy_numbers_strictly_increase_partial, ``policy_numbers_strictly_increase_counterexample,
   ``next_run_promotes_newest_counterexample, ``next_run_promotes_newest_counterexample_compile]
 
 end NA.C19
